@@ -52,14 +52,16 @@ REGISTERS = ('hue saturation brightness kelvin red green blue duration time '
 MARKS = list('{}[]()+-*/%^<>#:') + ['==', '<=', '>=', '!=', '=', '!', ',', '.',
                                     ';', '&', '|']
 NUMBERS = ['0', '5', '12', '.5', '5.', '1e3', '007', '3.25', '65535', '-1',
-           '99999999999', '1.2.3']
+           '99999999999', '1.2.3', '9' * 4301, '1' * 5000 + '.5',
+           '0.' + '3' * 400]
 NAMES = ['x', 'y', 'f', 'r', 'lt', 'number', 'eof', 'mark', 'error', 'unknown',
          'name', 'register', 'compare', 'literal_string', 'time_pattern',
          'syntax_error', 'null', 'Set', 'REPEAT', 'Hue', '_a', 'a1', 'round',
          'sqrt', 'random', 'coin']
 STRINGS = ['"A"', '"{"', '"["', '"-"', '"("', '""', '"not"', '"a b"', '"{}"',
            '"{} {}"', '"{x}"', '"{0} {hue}"', '"{"', '"}"', '"{:d}"', '"%"',
-           '"#"', '"and"', '"']
+           '"#"', '"and"', '"', '"^"', '"+"', '"*"', '"<"', '"=="', '"or"',
+           '")"', '"]"', '"begin"', '"end"', '"all"', '"default"']
 PATTERNS = ['8:00', '*:30', '1*:*5', '24:00', '12:60', '1:5', '*:*', '**:00',
             '8:00:00', '-8:00', '8:', ':00', '12:3*4']
 VOCAB = KEYWORDS + REGISTERS + MARKS + NUMBERS + NAMES + STRINGS + PATTERNS
@@ -114,6 +116,9 @@ INTERNAL = (
     (re.compile(r"'NoneType' object has no attribute '(parent|vars|params|"
                 r"globals|return_addr|constants)'"), 'call-stack-underflow'),
     (re.compile(r"at instruction None"), 'pc-outside-image'),
+    # a KeyError whose key is one of the VM's own enums: a dispatch table
+    # has no entry for what the compiler emitted
+    (re.compile(r"due to <\w+\.\w+: [^>]*>"), 'dispatch-on-enum'),
     (re.compile(r"'LoopFrame' object has no attribute|'StackFrame' object "
                 r"has no attribute"), 'frame-confusion'),
 )
@@ -121,7 +126,10 @@ INTERNAL = (
 
 def classify_abort(message):
     for pattern, name in INTERNAL:
-        if pattern.search(message):
+        found = pattern.search(message)
+        if found:
+            if name == 'dispatch-on-enum':
+                name += ':' + found.group(0)[8:].split(':')[0]
             return name
     return None
 
@@ -282,6 +290,229 @@ def mutated(draw):
     return separator.join(tokens)
 
 
+# ---- loosely grammatical programs ------------------------------------------------------
+# Statements and values are built from the language's own shapes, but placed
+# without regard to context or type (a power command inside a matrix block,
+# braces inside braces, a string where a number goes, a `stage` in a loop in a
+# routine): far more of these are accepted than of the token soup, so the
+# "accepted => executable" half of the property gets real exercise.
+L_VARS = ['a', 'b', 'c']
+L_ROUTINES = ['f', 'g', 'h']
+L_LIGHTS = ['"A"', '"x"', '"y"', '"nope"']
+L_REGS = ['hue', 'saturation', 'brightness', 'kelvin', 'duration', 'time',
+          'red', 'green', 'blue']
+L_OPS = ['+', '-', '*', '/', '%', '^', '<', '<=', '>', '>=', '==', '!=',
+         'and', 'or']
+L_PRELUDE = ('define m 5 assign a 1 assign b 2 assign c "A" '
+             'define f with p q begin return { p + q } end '
+             'define g begin wait end define h with p begin if p return 1 '
+             'return 0 end').split()
+
+
+def _l_atom(draw, depth):
+    kind = draw(st.integers(0, 13 if depth > 0 else 7))
+    if kind <= 1:
+        return [draw(st.sampled_from(['0', '1', '2', '3.5', '100', '65535',
+                                      '7', '0.25']))]
+    if kind == 2:
+        return [draw(st.sampled_from(L_VARS + ['m']))]
+    if kind == 3:
+        return [draw(st.sampled_from(L_REGS))]
+    if kind == 4:
+        return [draw(st.sampled_from(L_LIGHTS + ['"^"', '"5"']))]
+    if kind == 5:
+        return ['-'] + _l_atom(draw, 0)
+    if kind in (6, 7):
+        return [draw(st.sampled_from(['1', '2', 'a', 'b']))]
+    if kind == 8:
+        return ['('] + _l_infix(draw, depth - 1) + [')']
+    if kind == 9:
+        return ['{'] + _l_infix(draw, depth - 1) + ['}']
+    if kind == 10:
+        return _l_call(draw, depth - 1, True)
+    if kind == 11:
+        return ['not'] + _l_atom(draw, depth - 1)
+    if kind == 12:
+        return ['[', draw(st.sampled_from(
+            ['sqrt', 'round', 'floor', 'cycle', 'abs', 'sin'])),
+                *_l_value(draw, depth - 1), ']']
+    return ['[', 'random', *_l_value(draw, 0), *_l_value(draw, 0), ']']
+
+
+def _l_infix(draw, depth):
+    out = _l_atom(draw, depth)
+    for _ in range(draw(st.integers(0, 3))):
+        out += [draw(st.sampled_from(L_OPS))] + _l_atom(draw, depth)
+    if draw(st.integers(0, 11)) == 0:
+        # something left over where an operator or the end is due
+        out += [draw(st.sampled_from(['"^"', '"+"', '"and"', '2', 'a', '^',
+                                      'not', '"not"']))]
+    return out
+
+
+def _l_call(draw, depth, bracketed):
+    name = draw(st.sampled_from(L_ROUTINES))
+    count = {'f': 2, 'g': 0, 'h': 1}[name]
+    if draw(st.integers(0, 9)) == 0:
+        count = draw(st.integers(0, 3))
+    out = [name]
+    for _ in range(count):
+        out += _l_value(draw, depth)
+    return ['['] + out + [']'] if bracketed else out
+
+
+def _l_value(draw, depth):
+    """What the grammar calls an rvalue."""
+    kind = draw(st.integers(0, 9))
+    if kind <= 3 or depth <= 0:
+        return _l_atom(draw, 0)
+    if kind <= 7:
+        return ['{'] + _l_infix(draw, depth) + ['}']
+    if kind == 8:
+        return _l_call(draw, depth - 1, True)
+    return ['not'] + _l_value(draw, depth - 1)
+
+
+def _l_range(draw, depth):
+    out = _l_value(draw, depth - 1)
+    if draw(st.booleans()):
+        out += _l_value(draw, depth - 1)
+    return out
+
+
+def _l_target(draw, depth, allow_block=True):
+    kind = draw(st.integers(0, 11))
+    light = draw(st.sampled_from(L_LIGHTS + ['c', 'a']))
+    if kind <= 2:
+        return [light]
+    if kind == 3:
+        return ['group', draw(st.sampled_from(['"G1"', '"G2"', '"none"']))]
+    if kind == 4:
+        return ['location', draw(st.sampled_from(['"L1"', '"none"']))]
+    if kind == 5:
+        return ['all']
+    if kind == 6:
+        return ['default']
+    if kind == 7:
+        return [light, 'zone'] + _l_range(draw, depth)
+    if kind == 8:
+        out = [light]
+        for word in draw(st.permutations(['row', 'column'])):
+            if draw(st.integers(0, 3)) > 0:
+                out += [word] + _l_range(draw, depth)
+        return out
+    if kind == 9 and allow_block and depth > 0:
+        return [light, 'begin'] + _l_block(draw, depth - 1, True) + ['end']
+    if kind == 10:
+        return [light, 'and'] + _l_target(draw, depth, allow_block)
+    return [light]
+
+
+def _l_body(draw, depth, in_matrix=False):
+    if depth <= 0 or draw(st.integers(0, 3)) == 0:
+        return _l_statement(draw, depth - 1, in_matrix)
+    return ['begin'] + _l_block(draw, depth - 1, in_matrix) + ['end']
+
+
+def _l_block(draw, depth, in_matrix=False):
+    out = []
+    for _ in range(draw(st.integers(0, 3))):
+        out += _l_statement(draw, depth, in_matrix)
+    return out
+
+
+def _l_statement(draw, depth, in_matrix=False):
+    kind = draw(st.integers(0, 27))
+    if kind <= 2:
+        return [draw(st.sampled_from(L_REGS))] + _l_value(draw, depth)
+    if kind <= 5:
+        return [draw(st.sampled_from(['set', 'on', 'off', 'set']))] + \
+            _l_target(draw, depth)
+    if kind <= 7 or (in_matrix and kind <= 10):
+        out = ['stage']
+        for word in draw(st.permutations(['row', 'column'])):
+            if draw(st.booleans()):
+                out += [word] + _l_range(draw, depth)
+        return out
+    if kind <= 10:
+        return ['assign', draw(st.sampled_from(L_VARS + ['m', 'hue'])),
+                *_l_value(draw, depth)]
+    if kind == 11:
+        return ['define', draw(st.sampled_from(['m', 'm2', 'a'])),
+                *_l_atom(draw, 0)]
+    if kind == 12 and depth > 0:
+        params = draw(st.lists(st.sampled_from(['p', 'q', 'a', 'p']),
+                               max_size=3))
+        return (['define', draw(st.sampled_from(L_ROUTINES + ['k']))] +
+                (['with'] + params if params else []) +
+                _l_body(draw, depth))
+    if kind <= 14:
+        return _l_call(draw, depth, draw(st.booleans()))
+    if kind <= 16 and depth > 0:
+        out = ['if'] + _l_value(draw, depth) + _l_body(draw, depth, in_matrix)
+        if draw(st.booleans()):
+            out += ['else'] + _l_body(draw, depth, in_matrix)
+        return out
+    if kind <= 19 and depth > 0:
+        head = draw(st.integers(0, 8))
+        var = draw(st.sampled_from(['i', 'a', 'lt']))
+        if head == 0:
+            out = ['repeat']
+        elif head == 1:
+            out = ['repeat'] + _l_value(draw, depth - 1)
+        elif head == 2:
+            out = ['repeat', 'while'] + _l_value(draw, depth - 1)
+        elif head == 3:
+            out = ['repeat', 'with', var, 'from', *_l_value(draw, 0), 'to',
+                   *_l_value(draw, 0)]
+        elif head == 4:
+            out = ['repeat', *_l_value(draw, 0), 'with', var, 'from',
+                   *_l_value(draw, 0), 'to', *_l_value(draw, 0)]
+        elif head == 5:
+            out = ['repeat', *_l_value(draw, 0), 'with', var, 'cycle'] + (
+                _l_value(draw, 0) if draw(st.booleans()) else [])
+        elif head == 6:
+            out = ['repeat', 'all', 'as', var]
+        elif head == 7:
+            out = ['repeat', 'in', *_l_target(draw, 0, False), 'as', var]
+        else:
+            out = ['repeat', 'in', *_l_target(draw, 0, False), 'as', var,
+                   'with', 'i', 'cycle']
+        return out + _l_body(draw, depth, in_matrix)
+    if kind == 20:
+        return ['break']
+    if kind == 21:
+        return ['return'] + (_l_value(draw, depth) if draw(st.booleans())
+                             else [])
+    if kind == 22:
+        return [draw(st.sampled_from(['print', 'println']))] + \
+            _l_value(draw, depth)
+    if kind == 23:
+        out = ['printf', draw(st.sampled_from(
+            ['"{}"', '"{} {}"', '"{hue} {a}"', '"x"', '"{0} {1}"']))]
+        for _ in range(draw(st.integers(0, 2))):
+            out += _l_value(draw, depth)
+        return out
+    if kind == 24:
+        return ['units', draw(st.sampled_from(['raw', 'logical', 'rgb']))]
+    if kind == 25:
+        return draw(st.sampled_from([['wait'], ['time', 'at', '8:00'],
+                                     ['time', 'at', '*:*0', 'or', '9:1*'],
+                                     ['println']]))
+    if kind == 26:
+        return ['get'] + _l_target(draw, 0, False)
+    return ['get', *draw(st.sampled_from([['all'], ['row', '1'],
+                                          ['row', '0', 'column', '1']]))]
+
+
+@st.composite
+def plausible(draw):
+    tokens = list(L_PRELUDE) if draw(st.integers(0, 4)) > 0 else []
+    for _ in range(draw(st.integers(1, 5))):
+        tokens += _l_statement(draw, 3)
+    return ' '.join(tokens)
+
+
 @st.composite
 def rule_breakers(draw):
     """A valid script with exactly one documented violation injected."""
@@ -289,11 +520,29 @@ def rule_breakers(draw):
     program = case['program']
     text = printer.to_text(program)
     kind = draw(st.sampled_from(
-        ['break', 'assign-macro', 'redefine-macro', 'undefined-name',
+        ['break', 'break', 'return', 'assign-macro', 'redefine-macro',
+         'undefined-name',
          'nested-routine', 'missing-end', 'unbalanced', 'bad-pattern',
          'undefined-call']))
     if kind == 'break':
-        return text + '\nbreak', 'break outside a loop'
+        # the loops round a routine DEFINITION are not loops of its body
+        where = draw(st.sampled_from([
+            '{}', 'if 1 begin {} end', 'define qq_r begin {} end',
+            'repeat 2 begin wait end {}',
+            'repeat 2 begin define qq_r begin {} end end',
+            'repeat 2 begin define qq_r with a begin if a begin {} end end '
+            'qq_r 1 end',
+            'repeat all as qq_l begin define qq_r begin wait {} end end',
+            'if 1 begin repeat while 0 begin define qq_r begin {} wait end '
+            'end end']))
+        return text + '\n' + where.format('break'), 'break outside a loop'
+    if kind == 'return':
+        where = draw(st.sampled_from([
+            '{}', 'if 1 begin {} end', 'repeat 2 begin {} end',
+            'repeat 2 begin if 1 begin {} 5 end end',
+            'define qq_r begin wait end repeat 2 begin {} end']))
+        return (text + '\n' + where.format('return'),
+                'return outside a routine')
     if kind == 'assign-macro':
         return 'define QQ 5\n' + text + '\nassign QQ 6', 'assignment to a macro'
     if kind == 'redefine-macro':
@@ -333,8 +582,8 @@ def rule_breakers(draw):
 
 def plan(tier, seed_value):
     specs = []
-    per = {'soup': 40000, 'mutated': 12000, 'noise': 8000, 'rules': 4000,
-           'valid': 4000}
+    per = {'soup': 32000, 'mutated': 12000, 'noise': 8000, 'rules': 4000,
+           'valid': 4000, 'plausible': 16000}
     if tier == 'thorough':
         per = {k: v * 25 for k, v in per.items()}
     for k in range(16):
@@ -360,7 +609,7 @@ def run_shard(spec):
         'noise': st.one_of(st.text(max_size=80),
                            st.binary(max_size=80).map(
                                lambda b: b.decode('latin-1'))),
-        'rules': rule_breakers(),
+        'rules': rule_breakers(), 'plausible': plausible(),
         'valid': gen.programs(CONTROL_PROFILE).map(
             lambda case: printer.to_text(case['program']))}[kind]
 
